@@ -27,6 +27,8 @@ text.
 
 Round 6: imports are judged per generated half; pathlib / str wrappers around a path are looked
 through; the atomic-publish clause (A) is included.
+Round 7: clause T (a cache file that does not import is regenerated) also here; generated
+module-level helpers called by name; module-level string constants are constant module text.
 """
 import ast
 import builtins
